@@ -14,6 +14,7 @@ import (
 	"fmt"
 	"math/rand/v2"
 	"path/filepath"
+	"strings"
 	"sync/atomic"
 	"time"
 
@@ -67,7 +68,8 @@ type bench struct {
 	db    *sql.DB
 	l     *gen.Log
 	armed *atomic.Bool
-	pause atomic.Bool // set while the harness itself reads: its reads are never faulted
+	wedged bool
+	pause  atomic.Bool // set while the harness itself reads: its reads are never faulted
 }
 
 func newBench(r *rand.Rand, level, dir string) (*bench, error) {
@@ -101,7 +103,7 @@ func newBench(r *rand.Rand, level, dir string) (*bench, error) {
 }
 
 func (b *bench) close() {
-	if b.db != nil {
+	if b.db != nil && !b.wedged {
 		b.db.Close()
 	}
 }
@@ -133,7 +135,11 @@ func (b *bench) scenario(name string) (req, error) {
 	l := b.l
 	ctx := context.Background()
 	if name != "first_use" {
-		if _, err := b.rn.W.Update(ctx, l.ID, 0, l.Honest(0, 5), nil); err != nil {
+		var err error
+		if why := b.guarded(func() { _, err = b.rn.W.Update(ctx, l.ID, 0, l.Honest(0, 5), nil) }); why != "" {
+			return req{}, errors.New(why)
+		}
+		if err != nil {
 			return req{}, err
 		}
 	}
@@ -156,6 +162,28 @@ func (b *bench) scenario(name string) (req, error) {
 		return req{0, l.Honest(1, 7), nil, true}, nil
 	}
 	return req{}, errors.New("unknown scenario")
+}
+
+// guarded runs one witness call. There is never more than one operation in flight in this
+// harness, so if the call does not come back and the pool shows every connection in use with
+// a waiter, the operation waits for a connection that only itself (or an earlier, finished
+// operation) can be holding: a wedge. Time only triggers the inspection.
+func (b *bench) guarded(f func()) string {
+	done := make(chan struct{})
+	go func() { f(); close(done) }()
+	select {
+	case <-done:
+		return ""
+	case <-time.After(10 * time.Second):
+	}
+	b.wedged = true // never Close this handle: sql.DB.Close waits for running queries
+	if b.db != nil {
+		st := b.db.Stats()
+		if st.MaxOpenConnections > 0 && st.InUse >= st.MaxOpenConnections && st.WaitCount > 0 {
+			return fmt.Sprintf("wedge: the call waits for a database connection while all %d are in use and nothing else is running (WaitCount=%d)", st.InUse, st.WaitCount)
+		}
+	}
+	return "inconclusive"
 }
 
 // watchdog runs f with a generous wall-clock limit; false = inconclusive.
@@ -201,7 +229,11 @@ func main() {
 			}
 			q, err := b.scenario(sc)
 			if err != nil {
-				run.Inconclusive("prelude failed: " + err.Error())
+				if strings.HasPrefix(err.Error(), "wedge") {
+					run.Violate("update_never_returns;fault_free_prelude", "fault-free update on "+level+": "+err.Error(), -1, nil)
+				} else {
+					run.Inconclusive("prelude failed: " + err.Error())
+				}
 				return
 			}
 			var ops []string
@@ -211,7 +243,14 @@ func main() {
 			} else {
 				b.plan.Reset()
 			}
-			_, _ = b.rn.W.Update(context.Background(), b.l.ID, q.old, q.cp, q.proof)
+			if why := b.guarded(func() { _, _ = b.rn.W.Update(context.Background(), b.l.ID, q.old, q.cp, q.proof) }); why != "" {
+				if why == "inconclusive" {
+					run.Inconclusive("fault-free dry run did not return on " + level)
+				} else {
+					run.Violate("update_never_returns;fault_free;"+sc, "fault-free update on "+level+": "+why, -1, nil)
+				}
+				return
+			}
 			if level[:5] == "iface" {
 				ops = append(ops, b.hook.Calls...)
 			} else {
@@ -242,7 +281,11 @@ func main() {
 		defer b.close()
 		q, err := b.scenario(p.scen)
 		if err != nil {
-			run.Inconclusive("prelude failed: " + err.Error())
+			if strings.HasPrefix(err.Error(), "wedge") {
+				run.Violate("update_never_returns;fault_free_prelude", "fault-free update on "+p.level+": "+err.Error(), unit, nil)
+			} else {
+				run.Inconclusive("prelude failed: " + err.Error())
+			}
 			return
 		}
 		n := 0
@@ -325,7 +368,11 @@ func main() {
 		sc := scenarios[r.IntN(len(scenarios))]
 		q, err := b.scenario(sc)
 		if err != nil {
-			run.Inconclusive("prelude failed: " + err.Error())
+			if strings.HasPrefix(err.Error(), "wedge") {
+				run.Violate("update_never_returns;fault_free_prelude", "fault-free update on "+level+": "+err.Error(), unit, nil)
+			} else {
+				run.Inconclusive("prelude failed: " + err.Error())
+			}
 			return
 		}
 		prob := 0.15 + r.Float64()*0.3
@@ -411,8 +458,12 @@ func one(run *ev.Run, unit int64, b *bench, q req, what, scen string, disarm fun
 	}
 	var ret []byte
 	var err error
-	if !watchdog(func() { ret, err = b.rn.W.Update(ctx, l.ID, q.old, q.cp, q.proof) }) {
-		run.Inconclusive("watchdog: faulted Update did not return (" + what + ")")
+	if why := b.guarded(func() { ret, err = b.rn.W.Update(ctx, l.ID, q.old, q.cp, q.proof) }); why != "" {
+		if why == "inconclusive" {
+			run.Inconclusive("watchdog: faulted Update did not return (" + what + ")")
+		} else {
+			run.Violate("update_never_returns;"+scen, "the update did not complete: "+why, unit, map[string]any{"plan": what})
+		}
 		return false
 	}
 	run.Count("evaluations")
@@ -482,10 +533,14 @@ func recover_(run *ev.Run, unit int64, b *bench, what, scen string) {
 	next := v.Size + 3
 	var ret []byte
 	var err error
-	if !watchdog(func() {
+	if why := b.guarded(func() {
 		ret, err = b.rn.W.Update(context.Background(), l.ID, v.Size, l.Honest(br, next), l.Branches[br].Consistency(v.Size, next))
-	}) {
-		run.Inconclusive("watchdog: the next Update after faults stopped did not return (" + what + ")")
+	}); why != "" {
+		if why == "inconclusive" {
+			run.Inconclusive("watchdog: the next Update after faults stopped did not return (" + what + ")")
+		} else {
+			run.Violate("next_update_never_returns;"+scen, "after faults stopped the next update did not complete: "+why, unit, map[string]any{"plan": what})
+		}
 		return
 	}
 	if err != nil {
